@@ -57,7 +57,11 @@ CLI_SETS = [
     ("picosvg", ["rect.svg", "one-o-clock.svg", "two-o-clock.svg", "transformed_gradient_reuse.svg", "linear_gradient_rect.svg"], []),
     ("glyf_colr_0", ["rect.svg", "rect2.svg", "one-o-clock.svg", "gradient_opacity.svg"], ["--colr_version", "0"]),
     ("untouchedsvg", ["rect.svg", "one-o-clock.svg", "radial_gradient_rect.svg"], ["--keep_glyph_names"]),
+    # a glyph that paints nothing between two that do: the bitmap-bearing glyph ids are not one consecutive run
+    ("picosvg", ["rect.svg", "<blank>", "one-o-clock.svg", "<blank>", "two-o-clock.svg"], ["--bitmaps"]),
+    ("glyf_colr_1", ["one-o-clock.svg", "<blank>", "rect.svg"], ["--bitmaps", "--keep_glyph_names"]),
 ]
+BLANK_SVG = '<svg xmlns="http://www.w3.org/2000/svg" viewBox="0 0 128 128"></svg>'
 
 
 def enumerate_cases(tier):
@@ -89,6 +93,11 @@ def judge(case):
             else:
                 fmt = case["fmt"]
                 for i, fn in enumerate(case["files"]):
+                    if fn == "<blank>":
+                        dst = "src/" + _file_name([0x1F600 + i])
+                        ws.write(dst, BLANK_SVG)
+                        names.append(dst)
+                        continue
                     p = os.path.join(REPO_TESTS, fn)
                     if not os.path.exists(p):
                         continue
